@@ -21,6 +21,7 @@ mod nodeabs;
 mod hll;
 mod hostq;
 mod rumqtt;
+mod hcmd;
 
 use common::*;
 use std::path::{Path, PathBuf};
@@ -53,6 +54,7 @@ fn replay_file(comp: &str, path: &Path, out: &mut Out) {
         "hll" => hll::replay(&desc, &ops, out),
         "hostq" => hostq::replay(&desc, &ops, out),
         "rumqtt" => rumqtt::replay(&desc, &ops, out),
+        "hcmd" => hcmd::replay(&desc, &ops, out),
         _ => panic!("unknown component"),
     }
 }
@@ -164,6 +166,7 @@ fn main() {
         "hll" => hll::run(&args, &mut out),
         "hostq" => hostq::run(&args, &mut out),
         "rumqtt" => rumqtt::run(&args, &mut out),
+        "hcmd" => hcmd::run(&args, &mut out),
         _ => {
             eprintln!("unknown component {}", comp);
             std::process::exit(2)
